@@ -296,16 +296,14 @@ def run_gp(unit) -> UnitResult:
 
     r = UnitResult()
     real_pool = pm.ProcessingPool
+    tmp = tempfile.mkdtemp(prefix="verif_c13g_")
     try:
         def run(src):
             rep = StubRepresentation(3)
-            calls = []
-
-            def ff(p):
-                calls.append(p.v)
-                return TABLE[p.v % 4]
-
-            problem = SingleObjectiveProblem(ff)
+            path = os.path.join(tmp, "gp.log")
+            if os.path.exists(path):
+                os.remove(path)
+            problem = SingleObjectiveProblem(make_ff(path))  # file-backed log: also written by dill copies
             seen = []
 
             base = SequentialEvaluator if unit["evaluator"] == "seq" else ParallelEvaluator
@@ -354,7 +352,7 @@ def run_gp(unit) -> UnitResult:
                 gp.search()
             except Stop:
                 pass
-            return calls, seen, ev.number_of_evaluations(), keep
+            return read_log(path), seen, ev.number_of_evaluations(), keep
 
         st = ExploreStats()
         for ex in explore(run, max_dev=unit["max_dev"], max_execs=unit["max_execs"], horizon=4000, stats=st):
@@ -366,13 +364,11 @@ def run_gp(unit) -> UnitResult:
             r.count("gp_runs")
             w = {"unit": unit, "choices": list(ex.choices)}
             feat = {"evaluator": unit["evaluator"], "step": unit["step"]}
-            if unit["evaluator"] == "seq" and count != len(calls):
+            if count != len(calls):
                 r.add_violation(Violation(PROP, "Evaluator.number_of_evaluations", "counter-differs-from-invocations", feat, w,
-                                          f"GP {unit['step']}: counter {count}, fitness invocations {len(calls)}"))
-            if count != len(seen):
-                r.add_violation(Violation(PROP, "Evaluator.number_of_evaluations", "counter-differs-from-invocations", feat, w,
-                                          f"GP {unit['step']}: counter {count}, eval_single calls {len(seen)}"))
-            if len(seen) != len(set(seen)):
+                                          f"GP {unit['step']} with {unit['evaluator']}: counter {count}, fitness invocations {len(calls)}"))
+            # eval_single is only an observation point: an evaluator that does not route through it is not held to it
+            if seen and len(seen) != len(set(seen)):
                 r.nontrivial += 1
                 r.add_violation(Violation(PROP, "GeneticProgramming.search", "individual-evaluated-twice", feat, w,
                                           f"GP {unit['step']} with {unit['evaluator']}: {len(seen) - len(set(seen))} individuals were evaluated more than once"))
@@ -383,6 +379,9 @@ def run_gp(unit) -> UnitResult:
         r.samples.append({"gp_step": unit["step"], "evaluator": unit["evaluator"], "runs": st.executions})
     finally:
         pm.ProcessingPool = real_pool
+        import shutil
+
+        shutil.rmtree(tmp, ignore_errors=True)
     return r
 
 
